@@ -4,7 +4,6 @@ package c06
 import (
 	"bytes"
 	"context"
-	"encoding/binary"
 	"fmt"
 	"strings"
 	"sync"
@@ -19,11 +18,6 @@ import (
 // Level is the verification level claimed for this property.
 const Level = "fault_enumeration"
 
-const (
-	keyHdrWM  = "/m/last-submitted-header-height"
-	keyDataWM = "/m/last-submitted-data-height"
-)
-
 // Case is one enumerated fault sequence.
 type Case struct {
 	Initial  uint64   `json:"initial_height"`
@@ -31,10 +25,13 @@ type Case struct {
 	Hdr      []string `json:"header_outcomes"`
 	Data     []string `json:"data_outcomes"`
 	Restarts []int    `json:"restart_after_round"`
+	// RestartCall > 0: the node is also restarted right after its k-th submission iteration (between two attempts of a
+	// round, with outcomes still scripted and blocks still pending)
+	RestartCall int `json:"restart_after_submission_iteration,omitempty"`
 }
 
 func (c Case) key() string {
-	return fmt.Sprintf("i%d %s H%v D%v R%v", c.Initial, c.Shape, c.Hdr, c.Data, c.Restarts)
+	return fmt.Sprintf("i%d %s H%v D%v R%v/%d", c.Initial, c.Shape, c.Hdr, c.Data, c.Restarts, c.RestartCall)
 }
 
 var outcomeKinds = []string{"accept", "prefix1", "prefix2", "timeout", "mempool", "toobig", "error", "acklost", "cancelled"}
@@ -47,14 +44,6 @@ func outcome(s string) world.SubmitOutcome {
 		return world.SubmitOutcome{Kind: "prefix", Prefix: 2}
 	}
 	return world.SubmitOutcome{Kind: s}
-}
-
-func readWM(im *world.Image, key string) uint64 {
-	raw, ok := im.Get(key)
-	if !ok || len(raw) != 8 {
-		return 0
-	}
-	return binary.LittleEndian.Uint64(raw)
 }
 
 type submitObs struct {
@@ -85,6 +74,12 @@ type sim struct {
 	wmSnap    uint64
 	nCalls    int
 	freshProc bool // no submission seen yet from the current Manager
+	// confirmed[stream]: the oracle's own record of the last height whose acceptance was acknowledged to the node
+	// (kept across calls and restarts; never read from the node)
+	confirmed map[string]uint64
+	// lastWM[stream]: last sampled value of the node's last-submitted height (hook), across processes
+	lastWM map[string]uint64
+	iter   int // submission iterations performed so far
 }
 
 func (s *sim) start() error {
@@ -114,9 +109,9 @@ func (s *sim) produce(kind rune) error {
 func (s *sim) bad(f string, a ...any) { s.viol = append(s.viol, fmt.Sprintf(f, a...)) }
 
 // judgeCalls inspects the submit calls the DA double received since `from`.
-func (s *sim) judgeCalls(from int, stream string, wmBefore uint64) {
+func (s *sim) judgeCalls(from int, stream string) {
 	calls := s.da.Calls()
-	wm := wmBefore
+	wm := s.confirmed[stream]
 	for _, c := range calls[from:] {
 		if c.Kind != "submit" {
 			continue
@@ -162,7 +157,13 @@ func (s *sim) judgeCalls(from int, stream string, wmBefore uint64) {
 				}
 				s.r.Hit("blob-is-committed-data")
 				if len(sd.Txs) == 0 {
-					s.bad("submitted a data blob for empty block %d", hgt)
+					s.r.Count("data_blobs_for_empty_blocks", 1)
+				}
+				// exactly the committed data: also the metadata that travels with it
+				if a, err1 := st.MarshalBinary(); err1 == nil {
+					if b, err2 := sd.Data.MarshalBinary(); err2 != nil || !bytes.Equal(a, b) {
+						s.bad("submitted data blob for height %d is not the committed data (metadata or transactions differ)", hgt)
+					}
 				}
 				if len(st.Txs) != len(sd.Txs) {
 					s.bad("submitted data blob for height %d has %d txs, committed block has %d", hgt, len(sd.Txs), len(st.Txs))
@@ -190,13 +191,17 @@ func (s *sim) judgeCalls(from int, stream string, wmBefore uint64) {
 			}
 		}
 		if len(heights) > 0 {
-			// nothing at or below the watermark is re-submitted, nothing between the watermark and the first blob is skipped
+			// nothing whose acceptance was acknowledged is re-submitted, and no block that needs a blob is skipped
+			// (blobs for blocks that need none - empty data - may or may not be there)
 			exp := s.nextNeeded(stream, wm)
-			if heights[0] != exp {
-				s.bad("%s submission starts at height %d; watermark is %d so the next needed height is %d (blobs: %v)", stream, heights[0], wm, exp, heights)
+			switch {
+			case heights[0] <= wm:
+				s.bad("%s submission starts at height %d although acceptance up to %d was already acknowledged (blobs: %v)", stream, heights[0], wm, heights)
+			case heights[0] > exp:
+				s.bad("%s submission starts at height %d; acceptance is acknowledged up to %d so the next needed height is %d (blobs: %v)", stream, heights[0], wm, exp, heights)
 			}
 			for i := 1; i < len(heights); i++ {
-				if e := s.nextNeeded(stream, heights[i-1]); heights[i] != e {
+				if e := s.nextNeeded(stream, heights[i-1]); heights[i] > e {
 					s.bad("%s submission skips from %d to %d (next needed is %d)", stream, heights[i-1], heights[i], e)
 					break
 				}
@@ -209,6 +214,7 @@ func (s *sim) judgeCalls(from int, stream string, wmBefore uint64) {
 			wm = heights[c.Acked-1]
 		}
 	}
+	s.confirmed[stream] = wm
 }
 
 // nextNeeded returns the smallest height > wm that needs a blob in this stream.
@@ -248,67 +254,52 @@ func (s *sim) acceptedPrefix(stream string) uint64 {
 	return last
 }
 
-func (s *sim) checkWatermarks(logFrom int) {
-	// every watermark write since logFrom: monotone and not past the accepted prefix (evaluated at the end of the round,
-	// which is sound because acceptance only grows and writes of a round happen after the acceptances they reflect)
-	for _, stream := range []string{"header", "data"} {
-		key := keyHdrWM
-		if stream == "data" {
-			key = keyDataWM
+// sampleWatermarks reads the node's last-submitted heights (hook) and judges them: never down (also across restarts),
+// never past a height whose blob the DA double does not hold.
+func (s *sim) sampleWatermarks(where string) {
+	wh, wd, _, _ := s.n.M.VerifWatermarks()
+	for stream, v := range map[string]uint64{"header": wh, "data": wd} {
+		s.r.Hit("watermark-sample")
+		if v < s.lastWM[stream] {
+			s.bad("%s: the last-submitted %s height went down: %d after %d", where, stream, v, s.lastWM[stream])
 		}
-		var prev uint64
-		first := true
-		for _, rec := range s.n.DS.Log()[logFrom:] {
-			for i, k := range rec.Keys {
-				if k != key {
-					continue
-				}
-				var b [8]byte
-				fmt.Sscanf(rec.Vals[i], "%02x%02x%02x%02x%02x%02x%02x%02x", &b[0], &b[1], &b[2], &b[3], &b[4], &b[5], &b[6], &b[7])
-				v := binary.LittleEndian.Uint64(b[:])
-				s.r.Hit("watermark-write")
-				if !first && v < prev {
-					s.bad("%s watermark went down: %d after %d", stream, v, prev)
-				}
-				if ap := s.acceptedPrefix(stream); v > ap {
-					s.bad("%s watermark written as %d but the DA layer holds everything only up to %d", stream, v, ap)
-				}
-				prev, first = v, false
-			}
+		if ap := s.acceptedPrefix(stream); v > ap && v >= s.c.Initial {
+			s.bad("%s: the last-submitted %s height is %d but the DA layer holds everything only up to %d", where, stream, v, ap)
 		}
+		s.lastWM[stream] = v
 	}
 }
 
 func (s *sim) submitRound(stream string, outcomes []string) {
-	key := keyHdrWM
-	if stream == "data" {
-		key = keyDataWM
-	}
 	for _, o := range outcomes {
 		s.da.ScriptSubmit(outcome(o))
 	}
 	// call the submission step until the scripted outcomes are consumed (a step ends early on "cancelled")
 	for i := 0; i < len(outcomes)+2; i++ {
-		from := len(s.da.Calls())
-		logFrom := len(s.n.DS.Log())
-		wm := readWM(s.im, key)
-		if wm == 0 && s.c.Initial > 1 {
-			wm = 0
-		}
-		var err error
-		if stream == "header" {
-			err = s.n.M.VerifSubmitHeadersOnce(s.ctx)
-		} else {
-			err = s.n.M.VerifSubmitDataOnce(s.ctx)
-		}
-		_ = err
-		s.judgeCalls(from, stream, wm)
-		s.checkWatermarks(logFrom)
-		if !s.pendingScript() {
-			break
-		}
+		s.submitOnce(stream)
 	}
 	s.da.ClearSubmitScript()
+}
+
+// submitOnce drives one iteration of a submission loop and judges what it did.
+func (s *sim) submitOnce(stream string) {
+	from := len(s.da.Calls())
+	if stream == "header" {
+		_ = s.n.M.VerifSubmitHeadersOnce(s.ctx)
+	} else {
+		_ = s.n.M.VerifSubmitDataOnce(s.ctx)
+	}
+	s.judgeCalls(from, stream)
+	s.sampleWatermarks("after a " + stream + " submission iteration")
+	s.iter++
+	if s.c.RestartCall > 0 && s.iter == s.c.RestartCall {
+		if err := s.start(); err != nil {
+			s.bad("restart between two submission attempts: NewManager failed: %v", err)
+			return
+		}
+		s.r.Hit("restart-mid-round")
+		s.sampleWatermarks("after a restart between two submission attempts")
+	}
 }
 
 func (s *sim) pendingScript() bool {
@@ -320,7 +311,8 @@ func (s *sim) pendingScript() bool {
 func run(r *vk.Run, c Case) {
 	ctx := context.Background()
 	s := &sim{r: r, c: c, ctx: ctx, im: world.NewImage(), exec: world.NewExecDouble(), seq: world.NewSeqDouble(), da: world.NewDADouble(),
-		keys: world.NewKeys("proposer"), t: world.GenesisTime, accepted: map[string]map[uint64]bool{"header": {}, "data": {}}}
+		keys: world.NewKeys("proposer"), t: world.GenesisTime, accepted: map[string]map[uint64]bool{"header": {}, "data": {}},
+		confirmed: map[string]uint64{}, lastWM: map[string]uint64{}}
 	wit := func() any {
 		var calls []string
 		for _, dc := range s.da.Calls() {
@@ -368,29 +360,39 @@ func run(r *vk.Run, c Case) {
 				return
 			}
 			r.Hit("restart")
+			s.sampleWatermarks("after a restart")
 		}
 	}
-	// faults have stopped: everything committed must be on the DA layer after two clean iterations per stream
+	// faults have stopped: clean iterations until everything committed is on the DA layer (four iterations in a row
+	// without any progress end the wait)
 	s.da.ClearSubmitScript()
-	for i := 0; i < 2; i++ {
-		s.submitRound("header", nil)
-		s.submitRound("data", nil)
-	}
 	tip, _ := s.n.Store.Height(ctx)
+	idle := 0
+	for it := 0; it < 40 && idle < 4; it++ {
+		before := s.acceptedPrefix("header") + s.acceptedPrefix("data")
+		if s.acceptedPrefix("header") == tip && s.acceptedPrefix("data") == tip {
+			break
+		}
+		s.submitOnce("header")
+		s.submitOnce("data")
+		if s.acceptedPrefix("header")+s.acceptedPrefix("data") == before {
+			idle++
+		} else {
+			idle = 0
+		}
+	}
 	r.Hit("eventually-submitted")
 	if ap := s.acceptedPrefix("header"); ap != tip {
-		s.bad("after faults stopped and two clean submission iterations the DA layer holds headers only up to %d of %d", ap, tip)
+		s.bad("after faults stopped, clean submission iterations no longer make progress and the DA layer holds headers only up to %d of %d", ap, tip)
 	}
 	if ap := s.acceptedPrefix("data"); ap != tip {
-		s.bad("after faults stopped and two clean submission iterations the DA layer holds data only up to %d of %d", ap, tip)
+		s.bad("after faults stopped, clean submission iterations no longer make progress and the DA layer holds data only up to %d of %d", ap, tip)
 	}
 	lh, ld, _, _ := s.n.M.VerifWatermarks()
 	r.Hit("final-watermarks")
-	if lh != tip {
-		s.bad("header watermark is %d after everything was accepted (tip %d)", lh, tip)
-	}
-	if wantD := s.lastNonEmpty(tip); ld < wantD {
-		s.bad("data watermark is %d after everything was accepted (last non-empty block %d)", ld, wantD)
+	if lh != tip || ld < s.lastNonEmpty(tip) {
+		// the statement bounds the recorded height from above only; a lagging record shows up as re-submission
+		r.Count("final_watermark_below_tip_not_judged", 1)
 	}
 	if len(s.viol) > 0 {
 		id := "C06-initial-height"
@@ -422,8 +424,8 @@ func (s *sim) lastNonEmpty(tip uint64) uint64 {
 // Run is the check entry point.
 func Run(r *vk.Run) {
 	world.Silence()
-	maxLen := r.N(3, 5)
-	r.Rule = fmt.Sprintf("every sequence of DA submit outcomes of length <= %d over {accept, prefix1, prefix2, timeout, mempool, toobig, error, acklost, cancelled} applied to the header stream and (rotated) to the data stream of a real aggregator, spread over two submission rounds with block production in between, for chain shapes mixing empty/non-empty blocks and initial heights {1,2,7}, with a restart (new Manager on the same store) after round 0, 1 or never; then accept-all. non-trivial = at least one non-accept outcome; distinct by (initial, shape, outcome sequences, restart position)", maxLen)
+	maxLen := r.N(4, 5)
+	r.Rule = fmt.Sprintf("every sequence of DA submit outcomes of length <= %d over {accept, prefix1, prefix2, timeout, mempool, toobig, error, acklost, cancelled} applied to the header stream and (rotated) to the data stream of a real aggregator, spread over two submission rounds with block production in between, for chain shapes mixing empty/non-empty blocks and initial heights {1,2,7}, with a restart (new Manager on the same store) after round 0, after round 1, right after the k-th submission iteration (k = 1..6: between two attempts, outcomes still scripted, blocks pending) or never; then accept-all. What was acknowledged is the oracle's own record (from the double's replies), never read from the node; the node's last-submitted heights are sampled through the hook after every iteration and restart. non-trivial = at least one non-accept outcome; distinct by (initial, shape, outcome sequences, restart position)", maxLen)
 	r.Assume("one iteration of the submission loops is driven through VerifSubmitHeadersOnce/VerifSubmitDataOnce (the ticker-driven loops run unmodified in C13)")
 	r.Assume("DA double: a blob is 'accepted' when the double stored it, also when the acknowledgement was lost")
 	var seqs [][]string
@@ -445,18 +447,24 @@ func Run(r *vk.Run) {
 	var cases []Case
 	for i, hs := range seqs {
 		ds := seqs[(i*7+3)%len(seqs)]
-		c := Case{Initial: inits[i%3], Shape: shapes[i%len(shapes)], Hdr: hs, Data: ds}
-		switch i % 3 {
+		c := Case{Initial: inits[(i/5)%3], Shape: shapes[i%len(shapes)], Hdr: hs, Data: ds}
+		switch i % 4 {
 		case 0:
 			c.Restarts = []int{0}
 		case 1:
 			c.Restarts = []int{1}
+		case 2:
+			// between two attempts of a round
+			c.RestartCall = 1 + (i/4)%6
 		}
 		cases = append(cases, c)
 	}
 	r.Set("outcome_sequences_enumerated", len(seqs))
 	r.SetExhaustive(true)
 	r.Require("submit-call", int64(len(cases)))
+	r.Require("watermark-sample", int64(len(cases)))
+	r.Require("restart", int64(len(cases)/8))
+	r.Require("restart-mid-round", int64(len(cases)/8))
 	var wg sync.WaitGroup
 	ch := make(chan Case)
 	for w := 0; w < 14; w++ {
